@@ -361,10 +361,62 @@ def e2e(c, root):
             shutil.rmtree(d, ignore_errors=True)
     stats["fixture_files_alone"] = nfix
     checked += ordered_pairs(c, root, stats)
+    checked += stem_names(c, root, stats)
     c.coverage["files_checked"] = checked
     c.coverage["distribution"] = stats
     c.coverage["traces_validated_against_impl"] = checked
     return checked
+
+
+STEMS = ["profiles", "packages", "dbt_project", "selectors", "dependencies", "schema", "sources", "config", "index", "models", "metrics", "cubes", "views"]
+
+
+def stem_names(c, root, stats):
+    """a model whose NAME is the stem of a well-known configuration file (profiles, packages, dbt_project, schema, ...): exporters that name the file after the
+    model (Rill, Hex, Superset, Omni, ...) write profiles.yml etc.; the file is still that format's file and contributes its model"""
+    from sidemantic import Dimension, Metric, Model, SemanticLayer
+    from sidemantic.loaders import load_from_directory
+    done = 0
+    for key in LOADER_NAME:
+        if key == "atscale_sml" or listed_class(c, key, ("agg", "sum")):
+            continue
+        # control: the same model under a harmless name is handled by the format's own adapter
+        ok_names = []
+        for stem in ["lookup_m"] + (STEMS if c.tier == "thorough" else STEMS[:5] + [STEMS[5 + c.seed % 8]]):
+            d = tempfile.mkdtemp(prefix="s_", dir=root)
+            try:
+                g = c12.layer_with([Model(name=stem, table="customers", primary_key="id", dimensions=[Dimension(name="region", type="categorical")], metrics=[Metric(name="cnt", agg="count")])]).graph
+                suf = ".yml" if key == "sidemantic" else c12.ADAPTERS[key][1]
+                adapter_cls(key)().export(g, os.path.join(d, "out" + suf) if suf else os.path.join(d, "out"))
+                files = [os.path.join(r, f) for r, _, fs in os.walk(d) for f in fs]
+                if not any(stem in (own_models(key, fp) or []) for fp in files):
+                    continue                       # the format's own adapter does not read this model back: outside the premise
+                logging.disable(logging.CRITICAL)
+                try:
+                    L = SemanticLayer(connection="duckdb:///:memory:", auto_register=False)
+                    load_from_directory(L, d)
+                    err = None
+                except Exception as e:
+                    err = e
+                finally:
+                    logging.disable(logging.NOTSET)
+                m = None if err is not None else L.graph.models.get(stem)
+                good = m is not None and getattr(m, "_source_format", None) == LOADER_NAME[key]
+                if stem == "lookup_m":
+                    if not good:
+                        break                      # control fails: a listed / other problem of this format, not a matter of names
+                    continue
+                done += 1
+                if not good:
+                    c.violation("the %s exporter's file for a model named %r (%s) is not handled by its own adapter: %s" % (
+                                    key, stem, ", ".join(os.path.basename(f) for f in files)[:80], ("loading fails: %s" % str(err)[:80]) if err is not None else "model missing" if m is None else "loaded as %s" % getattr(m, "_source_format", None)),
+                                {"kind": "stem", "format": key, "model_name": stem, "files": [os.path.basename(f) for f in files]})
+            except Exception as e:
+                c.notes.append("stem-name run for %s / %s failed: %s" % (key, stem, str(e)[:100]))
+            finally:
+                shutil.rmtree(d, ignore_errors=True)
+    stats["stem_named_models"] = done
+    return done
 
 
 def ordered_pairs(c, root, stats):
